@@ -91,10 +91,10 @@ Section Inert.
     - destruct (optchain_transform c f n (o_p s)) as [[[n1 md] p1]|]; [|discriminate].
       destruct (struct_level_with c (op_visit c f false) n1 (o_with_p p1 s)) as [[n2 s3]|] eqn:E; [|discriminate].
       inversion H; subst. rewrite o_leave_t.
-      unfold struct_level_with in E. destruct (classify n1).
-      1,2: (inversion E; reflexivity).
+      unfold struct_level_with in E. destruct (classify n1); try (inversion E; reflexivity).
       all: (apply D in E; exact E).
     - destruct (is_op unary_op "delete" n); [inversion H; reflexivity | eapply D; exact H].
+    - inversion H; reflexivity.
     - inversion H; reflexivity.
     - eapply D; exact H.
   Qed.
